@@ -33,7 +33,7 @@ def load():
 
 def prove(goal, timeout_ms=20000):
     s = z3.Solver()
-    if "String" in goal.sexpr()[:20000]:
+    if "str." in goal.sexpr()[:20000] or "re." in goal.sexpr()[:20000]:
         timeout_ms = 2000  # z3's sequence solver is unstable on these; cvc5 decides them
     s.set("timeout", timeout_ms)
     s.add(z3.Not(goal))
